@@ -3,6 +3,7 @@ package main
 // C15 loader, C17 reload, C19 embedding API, C20 error positions.
 
 import (
+	"regexp"
 	"fmt"
 	"go/ast"
 	"go/token"
@@ -260,8 +261,8 @@ func ruleApiAdapt(c *Ctx, r *R) {
 				good, why = false, "the results of the native function are not all appended"
 			}
 		case strings.HasSuffix(sig, ") Value"):
-			if !strings.HasSuffix(final, " +1>") {
-				good, why = false, "the single result is not pushed after the native call (final length "+final+")"
+			if !regexp.MustCompile(`^<\+L\d* -argc \+1>$`).MatchString(final) {
+				good, why = false, "after the native call the stack does not hold exactly the single result in place of the argc arguments (final length "+final+", expected <+L -argc +1>): the caller, which keeps the lowest entries above the frame, receives an argument instead of the result"
 			}
 		default:
 			if takesArgs && !(strings.HasPrefix(final, "L") && !strings.Contains(final, " ")) && final != "<+L -argc>" {
@@ -273,6 +274,25 @@ func ruleApiAdapt(c *Ctx, r *R) {
 }
 
 func ruleApiAccessor(c *Ctx, r *R) {
+	// IsNil: typed nil slices/maps/struct pointers carry element/key/name bits above the base
+	// tag, so the test must be on the base tag
+	if fd := c.Func("Value.IsNil"); fd != nil {
+		good, n := true, 0
+		for _, p := range c.pathsOf("Value.IsNil") {
+			if len(p.Ret) == 1 && p.Ret[0].String() == "(v.value == nil)" {
+				n++
+				cs := condStrings(p)
+				for _, k := range []string{"TypeSlice", "TypeMap", "TypeStruct"} {
+					if !strings.Contains(cs, "(Type.base(v.t) == "+k+")") {
+						good = false
+					}
+				}
+			}
+		}
+		r.check(good && n > 0, "IsNil", c.Pos(fd), "reference kinds are recognised by their base tag", "Value.IsNil compares the whole type word with TypeSlice/TypeMap/TypeStruct: a typed nil ([]int(nil), a nil map, a nil *T returned by a script) has element/key/name bits set and is reported as not nil to the host")
+	} else {
+		r.undecided("IsNil", "-", "Value.IsNil not found")
+	}
 	tags := c.ctorTags()
 	for _, name := range []string{"Float64", "Int", "Int32", "Uint", "Uint32", "Int8", "Byte", "Uint8"} {
 		cf, af := c.Func(name), c.Func("Value."+name)
@@ -1104,6 +1124,44 @@ func ruleFuncIsolated(c *Ctx, r *R) {
 					}
 					return true
 				})
+				// the stack must be rooted in a fresh allocation, not in a slice the caller owns
+				var root func(e ast.Expr, depth int) string
+				root = func(e ast.Expr, depth int) string {
+					e = unparen(e)
+					switch x := e.(type) {
+					case *ast.CallExpr:
+						switch c.CalleeName(x) {
+						case "builtin.append":
+							if len(x.Args) > 0 {
+								return root(x.Args[0], depth+1)
+							}
+						case "builtin.make":
+							return "fresh"
+						}
+						return "call"
+					case *ast.CompositeLit:
+						return "fresh"
+					case *ast.SliceExpr:
+						return root(x.X, depth+1)
+					case *ast.Ident:
+						if x.Name == "nil" {
+							return "fresh"
+						}
+						o := c.Obj(x)
+						if isParamOrRecv(c, fd, o) {
+							return "param " + x.Name
+						}
+						if def := c.singleDef(x); def != nil && depth < 6 {
+							return root(def, depth+1)
+						}
+					}
+					return "unknown"
+				}
+				if rt := root(kv.Value, 0); strings.HasPrefix(rt, "param ") {
+					r.fail(fn+" stack owner", c.Pos(kv), fn+" builds the nested VM's stack by appending to its own "+strings.TrimPrefix(rt, "param ")+" parameter: when the host's argument slice has spare capacity the callee's locals and results are written into the host's backing array (a second Call with the same slice sees the first call's result as its argument) and the returned results alias it")
+				} else {
+					r.ok(fn+" stack owner", "rooted in "+rt)
+				}
 				r.check(!aliases, fn+" stack", c.Pos(kv), "the nested VM gets its own stack",
 					fn+" builds the nested VM's operand stack inside the calling VM's stack: the arguments a native callback received (which live in that spare capacity) are overwritten by a nested Call/Func")
 			}
